@@ -36,7 +36,7 @@ def load_known_findings(prop):
 
 def finalize(session, prop, tier, seed, expected, replayers, kf_classes,
              level_note='', bounded=None, extra_assumptions=None,
-             checker_cmd=None):
+             checker_cmd=None, native=None, fallback=None):
     """compute the verdict, write evidence, print VIOLATION/KNOWN-FINDING
     lines; returns the exit code."""
     S = session
@@ -145,6 +145,24 @@ def finalize(session, prop, tier, seed, expected, replayers, kf_classes,
         lines.append(line)
         exit_code = EXIT_VIOLATION
 
+    # thorough tier: bounded native checks
+    model_problems = []
+    for nb in (native or []):
+        if nb.get('kind') == 'battery' and (nb.get('result') or {}).get('confirmed'):
+            violations += 1
+            path = os.path.join(os.environ.get('PYVC_EVIDENCE_DIR') or
+                                os.path.join(VERIF, 'replays'),
+                                '%s-native-battery.json' % prop)
+            with open(path, 'w') as f:
+                json.dump({'property': prop, 'obligation': 'native battery',
+                           'replay': nb['result']}, f, indent=1, default=str)
+            lines.append('VIOLATION property=%s replay=%s' % (prop, path))
+            exit_code = EXIT_VIOLATION
+        if nb.get('kind') == 'model-validation' and nb.get('problems'):
+            model_problems.append(nb['what'])
+    for w in model_problems:
+        undecided.append(('library-model-validation', w))
+
     printed = set()
     for name, k in kf_matched:
         if k['id'] in printed:
@@ -153,10 +171,30 @@ def finalize(session, prop, tier, seed, expected, replayers, kf_classes,
         lines.append('KNOWN-FINDING: property=%s %s [%s; obligation %s]' % (
             prop, k['text'], k['id'], k['obligation']))
 
+    if exit_code == EXIT_OK and S.errors and fallback is not None:
+        # the code left the supported subset (or a contract is out of date):
+        # the deductive part is undecided.  The property's native battery is
+        # consulted; a reproduced violation is reported with its witness.
+        try:
+            fb = fallback(S, None, None)
+        except Exception as e:
+            fb = {'confirmed': False, 'error': repr(e)}
+        if fb.get('confirmed'):
+            violations += 1
+            path = os.path.join(os.environ.get('PYVC_EVIDENCE_DIR') or
+                                os.path.join(VERIF, 'replays'),
+                                '%s-undecided-native-witness.json' % prop)
+            with open(path, 'w') as f:
+                json.dump({'property': prop,
+                           'obligation': 'deductive part undecided: %r' % (
+                               S.errors[:3],),
+                           'replay': fb}, f, indent=1, default=str)
+            print('VIOLATION property=%s replay=%s' % (prop, path))
+            exit_code = EXIT_VIOLATION
     if exit_code == EXIT_OK:
         if S.errors or undecided or missing:
             exit_code = EXIT_UNDECIDED
-        if missing:
+        if missing and not S.errors:
             exit_code = EXIT_CRASH
 
     wall = time.time() - S.t0
